@@ -194,6 +194,7 @@ type c13Model struct {
 	err       bool
 	stderrAny bool
 	nproc     int
+	sysSnaps  []c13StartSnap // expected file contents / command input at the start of each system() child
 }
 
 func c13Expect(ops []string) *c13Model {
@@ -276,6 +277,17 @@ loop:
 			}
 		case "system":
 			c := &c13Child{proc: m.nproc, name: "system", out: fmt.Sprintf("<S%d>", i), startAt: len(m.progTok), waitAt: len(m.progTok)}
+			// system() flushes every open output stream first: what was printed to files
+			// and commands so far must have reached them when the child starts
+			snap := c13StartSnap{Proc: m.nproc, Files: map[string]string{}, CmdIn: map[string]int{}}
+			for name, kind := range m.openOut {
+				if kind == "file" {
+					snap.Files[name] = m.files[name]
+				} else if lc := m.liveChild[name]; lc != nil {
+					snap.CmdIn[name] = len(lc.out)
+				}
+			}
+			m.sysSnaps = append(m.sysSnaps, snap)
 			m.nproc++
 			m.children = append(m.children, c)
 			emit(fmt.Sprintf("Y%d=0\n", i))
@@ -362,7 +374,15 @@ func c13Source(ops []string) string {
 	return b.String()
 }
 
+type c13StartSnap struct {
+	Proc    int
+	Cmdline string
+	Files   map[string]string
+	CmdIn   map[string]int // command line -> bytes delivered to that (still running) child's stdin
+}
+
 type c13Obs struct {
+	Starts   []c13StartSnap
 	Res      awk.Result
 	Out      *c13Writer
 	Files    map[string]string
@@ -406,6 +426,20 @@ func c13Exec(ch *sched.Chooser, src string, buffered bool, noPreempt bool, failA
 	}
 	var o c13Obs
 	o.Out = out
+	w.OnStart = func(p *vworld.Proc) {
+		snap := c13StartSnap{Proc: p.ID, Cmdline: p.Cmdline, Files: map[string]string{}, CmdIn: map[string]int{}}
+		for _, n := range []string{"f1", "f2"} {
+			if b, err := os.ReadFile(filepath.Join(c13Dir, n)); err == nil {
+				snap.Files[n] = string(b)
+			}
+		}
+		for _, q := range w.Procs {
+			if q != p && q.Started && !q.Exited() {
+				snap.CmdIn[q.Cmdline] = q.StdinDelivered()
+			}
+		}
+		o.Starts = append(o.Starts, snap)
+	}
 	s.Spawn("main", func() {
 		o.Res = awk.Exec(prog, &interp.Config{Output: output, Stdin: strings.NewReader(""), ShellCommand: []string{"sh", "-c"}})
 	})
@@ -453,6 +487,24 @@ func c13Judge(ops []string, m *c13Model, o c13Obs) [][2]string {
 		got, gotOK := o.Files[n]
 		if want != got || wantOK != gotOK {
 			add("file-content", fmt.Sprintf("%s: got %q want %q", n, got, want))
+		}
+	}
+	// at the start of every system() child, output printed so far to open files and commands has been flushed to them
+	for _, want := range m.sysSnaps {
+		for _, got := range o.Starts {
+			if got.Proc != want.Proc {
+				continue
+			}
+			for name, content := range want.Files {
+				if got.Files[name] != content {
+					add("system-started-before-file-output-flushed", fmt.Sprintf("when system() child p%d started, %s held %q, printed so far: %q", want.Proc, name, got.Files[name], content))
+				}
+			}
+			for name, n := range want.CmdIn {
+				if got.CmdIn[name] != n {
+					add("system-started-before-command-output-flushed", fmt.Sprintf("when system() child p%d started, command %q had received %d bytes, printed so far: %d", want.Proc, name, got.CmdIn[name], n))
+				}
+			}
 		}
 	}
 	// stdout, by source: the program's own writes, in order and complete; each
